@@ -182,10 +182,9 @@ theorem compile_correct (hW : W.Wf) : ∀ (h : Hint) (p : Pith) (k : Nat) (env :
       | nil =>
         refine ⟨env₁, n + 0, ?_, hpost⟩
         simp only [List.isEmpty_nil, ↓reduceIte]
-        rw [and_first_true W r he (by simp [hsub]) (v := .bool x.items.isEmpty) (env₂ := env₁) (m := 0)
+        rw [and_first_true W r he (by simp [hsub]) (v := .bool (x.items.length == 0)) (env₂ := env₁) (m := 0)
           (by simp [eval, hk', hsz])]
         simp [chkZip]
-        cases x.items <;> simp
       | cons h0 hs0 =>
         simp only [List.isEmpty_cons, Bool.false_eq_true, ↓reduceIte]
         by_cases hlen : x.items.length = hs0.length + 1
